@@ -185,6 +185,25 @@ def run_nz(case):
         v.append(viol(f"C04/nz/data/{autos}/{signs}", f"n(z) = {rd.data.tolist()} but w_sp/sqrt(dz^2 w_ss w_pp) = {ed.tolist()}"))
     if not ref.close(rd.samples, es, rtol=1e-11):
         v.append(viol(f"C04/nz/samples/{autos}/{signs}", "n(z) samples are not computed like the value"))
+    # the same estimate from already sampled inputs (from_corrdata), twice with the same input objects (several
+    # tomographic bins share one reference autocorrelation): same result both times, inputs untouched
+    try:
+        cd = cross.sample()
+        rcd = ref_cf.sample() if ref_cf is not None else None
+        ucd = unk_cf.sample() if unk_cf is not None else None
+        snaps = [None if x is None else (x.data.copy(), x.samples.copy()) for x in (cd, rcd, ucd)]
+        first = yaw.RedshiftData.from_corrdata(cd, rcd, ucd)
+        second = yaw.RedshiftData.from_corrdata(cd, rcd, ucd)
+        if not (ref.close(first.data, ed, rtol=1e-11) and ref.close(first.samples, es, rtol=1e-11)):
+            v.append(viol(f"C04/nz/from_corrdata/{autos}", "from_corrdata differs from the formula"))
+        elif not (ref.close(second.data, ed, rtol=1e-11) and ref.close(second.samples, es, rtol=1e-11)):
+            v.append(viol(f"C04/nz/from_corrdata-second-call/{autos}",
+                          "a second from_corrdata call with the same input objects gives another estimate"))
+        for x, snp, name in zip((cd, rcd, ucd), snaps, ("cross", "ref", "unk")):
+            if x is not None and not (np.array_equal(x.data, snp[0], equal_nan=True) and np.array_equal(x.samples, snp[1], equal_nan=True)):
+                v.append(viol(f"C04/nz/from_corrdata-mutates-input/{name}", f"from_corrdata changed its {name} input in place"))
+    except Exception as e:
+        v.append(viol(f"C04/nz/from_corrdata/exception:{type(e).__name__}", yawx.exc_name(e)))
     # normalisation of the estimate
     if np.isfinite(rd.data).any():
         try:
